@@ -73,7 +73,7 @@ func (f *DiscoverJSON) Call(s *slip.Scope, args slip.List, depth int) (result sl
 		cb = func(j any) bool {
 			inst := flavor.MakeInstance().(*flavors.Instance)
 			inst.Any = fixNumbers(j)
-			channel <- inst
+			channel.Push(inst)
 			return false
 		}
 	} else {
